@@ -213,10 +213,11 @@ protected:
     }
 
     void build_queue(awaiter *stop) {
-        assert("Can't build queue if there are items in it" && _queue == nullptr);
         //atomically swap top of _requests with doorman
         //we use acquire order - to see changes on _next
         awaiter *req = _requests.exchange(doorman(), std::memory_order_acquire);
+        //checked after the acquire - the previous owner could write _queue in other thread
+        assert("Can't build queue if there are items in it" && _queue == nullptr);
         //if req is defined and until stop is reached
         while (req  && req != stop) {
             //pick top item, remove it and push it to _queue
